@@ -294,11 +294,14 @@ def run_random(case, rec):
 
 def run_exhaustive(case, rec):
     """all schedules of a small program"""
+    import time
+
     program = case["program"]
     sched = []
     n = blocked_runs = 0
     limit = case.get("limit", 20000)
-    while sched is not None and n < limit:
+    t_end = time.time() + case.get("seconds", 600)  # budget only: reaching it is "inconclusive", never a violation
+    while sched is not None and n < limit and time.time() < t_end:
         v, info = run_program(program, sched)
         n += 1
         if info["blocked"]:
@@ -308,7 +311,7 @@ def run_exhaustive(case, rec):
             break
         sched = next_schedule(info["choices"], info["trace"])
     rec.evals += n
-    rec.cls(f"schedules-enumerated={'all' if sched is None else 'limit'}")
+    rec.cls(f"schedules-enumerated={'all' if sched is None else 'stopped-at-limit-or-budget'}")
     rec.nt(blocked_runs >= 1)
 
 
@@ -399,7 +402,7 @@ def hyp_cases(draw, tier):
 
 
 PARTS = [
-    Part("all-schedules", run_exhaustive, enum=enum_cases),
+    Part("all-schedules", run_exhaustive, enum=enum_cases, watchdog=3600),
     Part("random-programs", run_random, strategy=hyp_cases, n={"quick": 150, "thorough": 20000}),
     Part("real-lock", run_real, enum=real_cases),
 ]
